@@ -488,7 +488,9 @@ fn source(ctx: &Ctx, a: usize, others: &[usize]) -> BoxedStrategy<V3> {
         .boxed();
     // the nominal box of A itself, when no other space on the route is confined to a different gamut
     let ga = gamut(&sa);
-    let box_ok = ga.is_some() && others.iter().all(|o| { let g = gamut(&ctx.sps[*o]); g.is_none() || g == ga });
+    // (a plain RGB space does not confine: unclamped, it represents colours outside its gamut with negative or > 1
+    // components, and the property demands that they come back; hexcone and Ok* / HSLuv spaces do confine)
+    let box_ok = ga.is_some() && others.iter().all(|o| { let g = gamut(&ctx.sps[*o]); g.is_none() || g == ga || ctx.sps[*o].k == K::Rgb });
     if box_ok {
         prop_oneof![1 => mapped, 1 => nominal_box(info)].boxed()
     } else {
